@@ -6,7 +6,9 @@ the number of allocation requests `total`; the sequence is then emitted once per
 containers: skip-list level growth (more than 16 members with maximal levels), hash-table
 expansion at 12/24/48 keys with and without recorded collisions, buffer growth at 32/64/128..
 bytes with consumed prefixes and tags (reclaim), array growth at powers of two with a front
-offset."""
+offset.  Kinds without a model: `wire` (ares_dns_write, names read back) and `parse` (the legacy
+ares_parse_*_reply functions on generated messages; the case carries the fault-free result as
+base=<dump> and the judge wants that result or a failure)."""
 import os
 import re
 import sys
@@ -121,6 +123,88 @@ def seq_wire(rng):
     return "wire", "", ops
 
 
+# ---------------- legacy reply parsers: DNS messages built here ----------------
+def _name(n):
+    out = b""
+    for lab in n.rstrip(".").split("."):
+        if lab:
+            out += bytes([len(lab)]) + lab.encode()
+    return out + b"\0"
+
+
+def _rr(owner, typ, rdata, ttl=300):
+    import struct
+    return _name(owner) + struct.pack(">HHIH", typ, 1, ttl, len(rdata)) + rdata
+
+
+def _msg(qname, qtype, answers):
+    import struct
+    hdr = struct.pack(">HHHHHH", 0x1234, 0x8180, 1, len(answers), 0, 0)
+    return (hdr + _name(qname) + struct.pack(">HH", qtype, 1) + b"".join(answers)).hex()
+
+
+def _cstr(s):
+    return bytes([len(s)]) + s.encode()
+
+
+def seq_parse(rng, which=None):
+    """one message for one legacy parser: address answers behind CNAME chains of 0..2 links
+    (alias and target are duplicated one by one), PTR through CNAMEs, list-valued replies"""
+    import socket
+    import struct
+    lab = lambda: "".join(rng.choice("abcdefghijklmnopqrstuvwxyz") for _ in range(rng.randint(1, 8)))
+    dom = lab() + "." + lab()
+    fn = which or rng.choice(["a", "aaaa", "ptr", "ptr6", "ns", "mx", "srv", "txt", "soa", "naptr", "caa"])
+    links = rng.choice([0, 1, 1, 2, 2])
+
+    def chain(q):
+        an, cur = [], q
+        for i in range(links):
+            nxt = "c%d.%s" % (i + 1, rng.choice([dom, lab() + ".test"]))
+            an.append(_rr(cur, 5, _name(nxt), ttl=rng.choice([60, 300])))
+            cur = nxt
+        return an, cur
+
+    if fn in ("a", "aaaa"):
+        q = "www." + dom
+        an, cur = chain(q)
+        for i in range(rng.randint(1, 3)):
+            if fn == "a":
+                an.append(_rr(cur, 1, bytes([10, 0, rng.randint(0, 9), i + 1]), ttl=100 + i))
+            else:
+                an.append(_rr(cur, 28, socket.inet_pton(socket.AF_INET6, "2001:db8::%x" % (i + 1)), ttl=100 + i))
+        hexmsg = _msg(q, 1 if fn == "a" else 28, an)
+    elif fn in ("ptr", "ptr6"):
+        q = "3.2.1.10.in-addr.arpa" if fn == "ptr" else "8.0.0.0.0.0.0.0.0.0.0.0.0.0.0.0.0.0.0.0.0.0.0.0.0.0.0.0.0.0.d.f.ip6.arpa"
+        an, cur = chain(q)
+        for i in range(rng.randint(1, 3)):
+            an.append(_rr(cur, 12, _name("host%d.%s" % (i, dom))))
+        hexmsg = _msg(q, 12, an)
+    elif fn == "ns":
+        an = [_rr(dom, 2, _name("ns%d.%s" % (i, dom))) for i in range(rng.randint(1, 3))]
+        hexmsg = _msg(dom, 2, an)
+    elif fn == "mx":
+        an = [_rr(dom, 15, struct.pack(">H", 10 * i) + _name("mx%d.%s" % (i, dom))) for i in range(rng.randint(1, 3))]
+        hexmsg = _msg(dom, 15, an)
+    elif fn == "srv":
+        an = [_rr("_sip._tcp." + dom, 33, struct.pack(">HHH", i, 5, 5060) + _name("sip%d.%s" % (i, dom))) for i in range(rng.randint(1, 3))]
+        hexmsg = _msg("_sip._tcp." + dom, 33, an)
+    elif fn == "txt":
+        an = [_rr(dom, 16, b"".join(_cstr(lab()) for _ in range(rng.randint(1, 3)))) for i in range(rng.randint(1, 3))]
+        hexmsg = _msg(dom, 16, an)
+    elif fn == "soa":
+        an = [_rr(dom, 6, _name("ns." + dom) + _name("hostmaster." + dom) + struct.pack(">IIIII", 2024, 3600, 600, 86400, 60))]
+        hexmsg = _msg(dom, 6, an)
+    elif fn == "naptr":
+        an = [_rr(dom, 35, struct.pack(">HH", 10 + i, 20) + _cstr("u") + _cstr("E2U+sip") + _cstr("!^.*$!sip:info@%s!" % dom) + _name("."))
+              for i in range(rng.randint(1, 2))]
+        hexmsg = _msg(dom, 35, an)
+    else:
+        an = [_rr(dom, 257, bytes([0]) + _cstr("issue") + ("ca%d.%s" % (i, dom)).encode()) for i in range(rng.randint(1, 2))]
+        hexmsg = _msg(dom, 257, an)
+    return "parse", " fn=%s" % fn, [hexmsg]
+
+
 def sequences(rng, tier):
     per = 3 if tier == "quick" else 12
     out = []
@@ -134,6 +218,11 @@ def sequences(rng, tier):
             out.append(seq_arr(rng, rng.choice([12, 20, 40, 80])))
         for _ in range(3):
             out.append(seq_wire(rng))
+    # every legacy parser once, the address and PTR parsers (CNAME chains) more often
+    for fn in ["a", "aaaa", "ptr", "ptr6", "ns", "mx", "srv", "txt", "soa", "naptr", "caa"]:
+        out.append(seq_parse(rng, fn))
+    for _ in range(per * 2):
+        out.append(seq_parse(rng, rng.choice(["a", "aaaa", "ptr", "ptr6"])))
     return out
 
 
@@ -150,14 +239,20 @@ def gen(rng, tier, n):
     rc, out, err = vlib.sh([exe, casefile, "0"], timeout=120, env=env)
     os.unlink(casefile)
     totals = {}
+    dumps = {}
     for line in out.split("\n"):
         m = re.match(r"^(\d+) R (.*)$", line)
         if m:
             cnts = re.findall(r"@(\d+)/", m.group(2))
             totals[int(m.group(1))] = int(cnts[-1]) if cnts else 0
+            d = re.search(r" dump=(\S*)", m.group(2))
+            dumps[int(m.group(1))] = d.group(1) if d else "?"
     cases = []
     for i, (kind, extra, ops) in enumerate(seqs):
         total = totals.get(i, 0)
+        if kind == "parse":
+            # the judge compares a successful result with the result without failure
+            extra += " base=%s" % dumps.get(i, "?")
         for k in range(0, total + 1):
             cases.append("%s n=%d%s|%s" % (kind, k, extra, ";".join(ops)))
     return cases
